@@ -230,8 +230,12 @@ fn pieces3(n: usize, i: usize, j: usize, m: [M; 3], d: [D; 3]) -> Vec<Piece> {
     let mut v = Vec::new();
     let bounds = [(0, i), (i, j), (j, n)];
     for (k, (lo, hi)) in bounds.iter().enumerate() {
-        // keep at most one empty piece per case (empty calls are legal, but boring in bulk)
-        if lo == hi && !(k == 1 && i == j && i * 2 == n) {
+        // empty leading / trailing pieces are dropped; an empty MIDDLE piece (i == j) is kept: a
+        // zero-length call between two pieces is legal and must change nothing
+        if lo == hi && k != 1 {
+            continue;
+        }
+        if lo == hi && k == 1 && (i == 0 || i == n) {
             continue;
         }
         v.push(Piece { lo: *lo, hi: *hi, m: m[k], d: d[k] });
@@ -392,11 +396,13 @@ pub fn tier1(ctx: &Ctx, rep: &mut Report, focus: Focus, unit: &mut usize) {
         (Focus::RoundTrip, Tier::Thorough) => (6, 8),
         (Focus::Output, Tier::Quick) => (4, 6),
         (Focus::Output, Tier::Thorough) => (5, 7),
-        (Focus::Format, Tier::Quick) => (5, 7),
+        (Focus::Format, Tier::Quick) => (5, 6),
         (Focus::Format, Tier::Thorough) => (6, 9),
         (Focus::Drain, Tier::Quick) => (4, 6),
         (Focus::Drain, Tier::Thorough) => (5, 7),
     };
+    // the C05 / C10 clauses reuse this tier with shorter inputs (their deciding families are elsewhere)
+    let (len5, len4) = if matches!(ctx.prop.as_str(), "C05" | "C10") { (len5.min(3), len4.min(5)) } else { (len5, len4) };
     let mut states = StateCover::default();
     let prop = ctx.prop.clone();
     let mut count = 0u64;
@@ -461,6 +467,9 @@ pub fn decoder_accept_set(ctx: &Ctx, rep: &mut Report, unit: &mut usize) {
                 for i in 1..n {
                     for m in [M::Borrow, M::Copy] {
                         let pieces = [Piece { lo: 0, hi: i, m, d: D::None }, Piece { lo: i, hi: n, m, d: D::None }];
+                        t.dec(enc, &pieces, limits, false, &mut obs, None);
+                        // the same with a zero-length call in between
+                        let pieces = [Piece { lo: 0, hi: i, m, d: D::None }, Piece { lo: i, hi: i, m, d: D::None }, Piece { lo: i, hi: n, m, d: D::None }];
                         t.dec(enc, &pieces, limits, false, &mut obs, None);
                     }
                 }
